@@ -250,3 +250,72 @@ Proof.
     + cbn. rewrite E, String.eqb_refl. exact A.
     + subst y. destruct ds; cbn; [rewrite sapp_nil_r|]; reflexivity.
 Qed.
+
+(* ------------------------------------------------------------------ trim and replace, declaratively *)
+Fixpoint all_space (s : string) : bool :=
+  match s with EmptyString => true | String a s' => is_space a && all_space s' end.
+Definition no_lead_space (s : string) : bool :=
+  match s with EmptyString => true | String a _ => negb (is_space a) end.
+
+Lemma trim_left_dec : forall s, exists l, s = (l ++ trim_left s)%string /\ all_space l = true /\ no_lead_space (trim_left s) = true.
+Proof.
+  induction s as [|a s IH]; cbn.
+  - exists EmptyString. repeat split.
+  - destruct (is_space a) eqn:E.
+    + destruct IH as [l [A [B C]]]. exists (String a l). cbn. rewrite E, B. rewrite <- A. repeat split. exact C.
+    + exists EmptyString. cbn. rewrite E. repeat split.
+Qed.
+Lemma trim_left_fix : forall s, no_lead_space s = true -> trim_left s = s.
+Proof. intros [|a s] H; cbn in *; [reflexivity|]. destruct (is_space a); [discriminate | reflexivity]. Qed.
+Lemma srev_app : forall a b, srev (a ++ b) = (srev b ++ srev a)%string.
+Proof.
+  induction a as [|x a IH]; intros b; cbn.
+  - rewrite sapp_nil_r. reflexivity.
+  - rewrite IH, sapp_assoc. reflexivity.
+Qed.
+Lemma srev_invol : forall s, srev (srev s) = s.
+Proof. induction s as [|a s IH]; cbn; [reflexivity|]. rewrite srev_app, IH. reflexivity. Qed.
+Lemma all_space_app : forall a b, all_space (a ++ b) = all_space a && all_space b.
+Proof. induction a as [|x a IH]; intros b; cbn; [reflexivity|]. rewrite IH, andb_assoc. reflexivity. Qed.
+Lemma all_space_srev : forall s, all_space (srev s) = all_space s.
+Proof.
+  induction s as [|a s IH]; cbn; [reflexivity|]. rewrite all_space_app, IH. cbn. rewrite andb_true_r, andb_comm. reflexivity.
+Qed.
+Lemma no_lead_prefix : forall a b, no_lead_space (a ++ b) = true -> a <> EmptyString -> no_lead_space a = true.
+Proof. intros [|x a] b H N; [congruence|]. exact H. Qed.
+
+(* trim(): the receiver is  l ++ trim ++ r  with l and r made of white space only, and the
+   result neither begins nor ends with white space *)
+Lemma trim_space_spec_l : forall s, exists l r,
+  s = (l ++ trim_space s ++ r)%string /\ all_space l = true /\ all_space r = true /\
+  no_lead_space (trim_space s) = true /\ no_lead_space (srev (trim_space s)) = true.
+Proof.
+  intro s. unfold trim_space.
+  destruct (trim_left_dec s) as [l [A [B C]]].
+  destruct (trim_left_dec (srev (trim_left s))) as [r' [A' [B' C']]].
+  set (t1 := trim_left s) in *. set (t2 := trim_left (srev t1)) in *.
+  assert (T1 : t1 = (srev t2 ++ srev r')%string).
+  { rewrite <- (srev_invol t1). rewrite A'. apply srev_app. }
+  exists l, (srev r'). repeat split.
+  - rewrite A at 1. rewrite T1. reflexivity.
+  - exact B.
+  - rewrite all_space_srev. exact B'.
+  - destruct (srev t2) as [|x u] eqn:E; [reflexivity|]. rewrite T1 in C. exact C.
+  - rewrite srev_invol. exact C'.
+Qed.
+
+(* replace(): a pattern that does not occur leaves the receiver unchanged *)
+Lemma replace_fuel_absent : forall f old new s,
+  (forall pre post, s <> (pre ++ old ++ post)%string) -> replace_fuel f old new s = s.
+Proof.
+  induction f as [|f IH]; intros old new s H; [reflexivity|]. cbn [replace_fuel].
+  destruct (prefixb old s) eqn:P.
+  - apply prefixb_iff in P. destruct P as [r P]. exfalso. apply (H EmptyString r). exact P.
+  - destruct s as [|a s']; [reflexivity|]. f_equal. apply IH.
+    intros pre post E. apply (H (String a pre) post). cbn. rewrite E. reflexivity.
+Qed.
+Lemma replace_absent_l : forall old new s, old <> EmptyString ->
+  (forall pre post, s <> (pre ++ old ++ post)%string) -> replace_all old new s = s.
+Proof.
+  intros old new s N H. unfold replace_all. destruct old; [congruence|]. apply replace_fuel_absent. exact H.
+Qed.
